@@ -271,8 +271,11 @@ def rule_template(ctx):
         res.inst(ikey, fn.file, fn.line, "ok", "%s returns %s" % (conv, rty))
     else:
         res.inst(ikey, fn.file, fn.line, "violation")
-        res.violate(ikey, "command-line arguments are converted with %s, which returns `%s`: values outside that range do not reach main unchanged "
-                    "(parameters are declared %s)" % (conv, rty, proto_ty), fn.file, fn.line)
+        res.violate(ikey, ("command-line arguments are converted with %s, which returns `%s`: values outside that range do not reach main unchanged "
+                    "(parameters are declared %s)" % (conv, rty, proto_ty)) if decl is not None else
+                    ("command-line arguments are converted with %s, which no header included by the driver template declares: the call is "
+                     "implicitly declared and returns `int`, so values outside 32 bits do not reach main unchanged (parameters are declared %s)" % (conv, proto_ty)),
+                    fn.file, fn.line)
     if conv.startswith("strto"):
         # strtoll(s, end, base): only base 10 reads every decimal argument as the number it spells (base 0 reads a leading 0 as octal)
         ikey3 = "argument-conversion:base"
